@@ -37,7 +37,7 @@ TInit ==
     /\ admc = [n \in Node |-> [i \in Item |-> 0]] /\ parked = [n \in Node |-> {}]
     /\ msgs = {} /\ seen = {} /\ orig = {}
     /\ sent = [n \in Node |-> [i \in Item |-> 0]]
-    /\ ndup = 0 /\ nforge = 0
+    /\ ndup = 0 /\ nforge = 0 /\ nexp = [n \in Node |-> 0]
     /\ pos = 1 /\ obs = Good
 
 EvReset(ev) ==
@@ -46,7 +46,7 @@ EvReset(ev) ==
     /\ admc' = [n \in Node |-> [i \in Item |-> 0]] /\ parked' = [n \in Node |-> {}]
     /\ msgs' = {} /\ seen' = {} /\ orig' = {}
     /\ sent' = [n \in Node |-> [i \in Item |-> 0]]
-    /\ ndup' = 0 /\ nforge' = 0
+    /\ ndup' = 0 /\ nforge' = 0 /\ nexp' = [n \in Node |-> 0]
     /\ obs' = [conf |-> ToSet(ev.nodes) = Node /\ ToSet(ev.bad) = Bad /\ ToSet(ev.items) = ToSet(Cfg0.items), a |-> "Reset"]
 
 \* observed effect at node n equals the effect of the specification's step
@@ -108,7 +108,7 @@ EvForge(ev) ==
     LET gs == LGs(ev.gs) IN
     /\ msgs' = msgs \cup {Msg(ev.b, ev.to, ev.item, gs)}
     /\ nforge' = nforge + 1
-    /\ UNCHANGED <<peers, flash, adm, admc, parked, seen, sent, orig, ndup>>
+    /\ UNCHANGED <<peers, flash, adm, admc, parked, seen, sent, orig, ndup, nexp>>
     /\ obs' = [conf |-> ev.b \in Bad /\ gs \in ForgeMenu(ev.b, ev.item, ev.b) \cup UNION {ForgeMenu(ev.b, ev.item, v) : v \in Node}, a |-> ev.a]
 
 \* a forged item: the real handler must refuse it, admit nothing, send nothing (and remember the hash)
@@ -117,6 +117,13 @@ EvPoison(ev) ==
     THEN Poison(ev.b, ev.to, ev.item)
          /\ obs' = [conf |-> ev.res = "err" /\ adm[ev.to] = ToSet(ev.adm) /\ ev.new = <<>>, a |-> ev.a]
     ELSE UNCHANGED vars /\ obs' = [conf |-> ev.res = "ok" \/ ev.res = "err", a |-> ev.a]
+
+\* the window of node n has passed (the driver replaces the node's flash memory by an empty one)
+EvExpire(ev) ==
+    /\ flash' = [flash EXCEPT ![ev.n] = {}]
+    /\ nexp' = [nexp EXCEPT ![ev.n] = @ + 1]
+    /\ UNCHANGED <<peers, adm, admc, parked, msgs, seen, sent, orig, ndup, nforge>>
+    /\ obs' = [conf |-> TRUE, a |-> ev.a]
 
 EvQuiesce(ev) ==
     /\ UNCHANGED vars
@@ -135,6 +142,7 @@ TNext ==
          [] ev.a = "Get" -> EvGet(ev)
          [] ev.a = "Retry" -> EvRetry(ev)
          [] ev.a = "Forge" -> EvForge(ev)
+         [] ev.a = "Expire" -> EvExpire(ev)
          [] ev.a = "Poison" -> EvPoison(ev)
          \* the behaviour asked for a message the real network does not hold: the replay diverged from the model's
          \* run (any difference in what a node SENT was already judged at the event that sent it)
